@@ -637,6 +637,8 @@ def random_table(rng, marker=None, shape=None):
     no = shape.get("no") or rng.choice([1, 1, 1, 2, 2, 3])
     na = shape["na"] if "na" in shape else rng.choice([0, 0, 0, 1, 1, 2])
     n = shape.get("n") or rng.randint(1, 8)
+    if "n" not in shape and rng.random() < 0.03:
+        n = rng.choice([9, 16, 17, 32, 33, 40, 65])  # size boundary: many rules (and, with few distinct pool values, many hits)
     has_name = shape["name"] if "name" in shape else rng.random() < 0.5
     has_values = shape["values"] if "values" in shape else rng.random() < 0.5
     has_label = shape["label"] if "label" in shape else rng.random() < 0.5
